@@ -456,6 +456,8 @@ CHECKS = {
                # ONCE calls / POLL rounds racing writers of the matched leaves on the real scheduler
                # answers of 9000-70000 leaves to a reader slower than the walk (each case costs seconds)
                dict(name="huge", run="TestC05Huge", checks=dict(quick=2, thorough=8), shards=dict(quick=2, thorough=8)),
+               # ONCE / POLL against Cache.Query, the cache filled through both entry points (foreign.go)
+               dict(name="foreign", run="TestC05Foreign", checks=dict(quick=3000, thorough=100000), shards=dict(quick=2, thorough=8)),
                dict(name="stress", run="TestC05Stress", rapid=False, args=dict(quick=["-c05.stress=30"], thorough=["-c05.stress=600"]), shards=dict(quick=2, thorough=8))],
     ),
     "C07": dict(
@@ -1264,7 +1266,10 @@ EXT3 = {
                             "(free-running, real scheduler inside a synctest bubble): 1-4 client goroutines issue ONCE calls / POLL rounds back to back while one writer goroutine per hot leaf keeps "
                             "updating the leaves they match (value = serial number); every round carries every matching leaf, a static leaf with its value, a hot leaf with a serial number between the "
                             "last update completed before the request and the last one started before its sync arrived; one sync per request, last; ONCE ends with success; glog verbosity 0-3 per workload. Part huge: a ONCE / POLL answer of 9000-65537 leaves queued behind a reader that takes "
-                            "1-9000 responses at a time and then reads freely: exactly the matching set, then the sync response."),
+                            "1-9000 responses at a time and then reads freely: exactly the matching set, then the sync response. Part foreign (differential): the cache is filled through Cache.GnmiUpdate and "
+                            "through the per-target handles Cache.GetTarget(x).GnmiUpdate with prefixes that name x, another registered target, a device's own FQDN, '*' or nothing; a ONCE call and every pass "
+                            "of a POLL subscription for (x | '*', path with globs) must send exactly the notifications Cache.Query returns for the same target and path at quiescence - none missing, none "
+                            "extra, none twice -, then one sync_response; ONCE then ends with success."),
                 level_note="; stress part: schedules are the real scheduler's (a replay re-runs the workload 20 times); a deadlock is reported structurally (vstat.Watchdog), never by a timeout",
                 rule=" stress: a case is one workload (20-80 requests per client); non-trivial = >=2 hot leaves and >=20 completed rounds."),
     "C08": dict(level_text=(" Third structured shape (an eighth of the cases): a POLL client that stops reading and keeps sending 1-300 poll triggers (letting a send pass now and then) against an "
